@@ -1796,8 +1796,50 @@ func c12RunPop(r obsSink, pc c12PopCase) {
 		text, _ := refmodel.RenderQuery(p.randomQuery(rng))
 		r.Sample(map[string]any{"population": 0, "bugs": len(p.bugs), "first_query": text, "markers": map[string]any{"rare": p.rare, "common": p.common, "hits": p.hitsPer}})
 	}
+	// a cache that lives on: one person changes its name through the served cache, then the person qualifiers are
+	// evaluated again with the old and the new name (the old name was evaluated above, before the change)
+	p.renameAndRequery(r)
 	// last: the same repository through the command line (closes the cache)
 	p.runCLI(r, pc)
+}
+
+// renameAndRequery gives one identity of the population a new name (a new identity version, committed through the
+// cache) and evaluates author:, actor: and participant: with the former and the new name against the same reference
+// evaluator, which is told the new name.
+func (p *c12Pop) renameAndRequery(r obsSink) {
+	if p.rc == nil || len(p.plist) == 0 || len(p.w.Replicas) == 0 {
+		return
+	}
+	k := p.idx % len(p.plist)
+	old := p.plist[k]
+	ic, err := p.rc.Identities().Resolve(entity.Id(old.Id))
+	if err != nil {
+		r.Inconclusive("C12 rename: " + err.Error())
+		return
+	}
+	renamed := old
+	renamed.Name = "Zebedee Quixote-" + fmt.Sprint(p.idx)
+	if err := ic.Mutate(p.w.Replicas[0].Repo, func(m *identity.Mutator) { m.Name = renamed.Name }); err != nil {
+		r.Inconclusive("C12 rename: " + err.Error())
+		return
+	}
+	if err := ic.Commit(); err != nil {
+		r.Inconclusive("C12 rename: " + err.Error())
+		return
+	}
+	p.people[old.Id] = renamed
+	p.plist[k] = renamed
+	r.Count("identities_renamed_in_the_live_cache", 1)
+	for _, name := range []string{old.Name, renamed.Name, "Quixote", "zebedee"} {
+		for _, kind := range []string{"author", "actor", "participant"} {
+			p.evalOne(r, []refmodel.QToken{{Kind: kind, Value: name}}, false)
+			r.Count("person_queries_after_a_rename", 1)
+		}
+	}
+	for i := 0; i < 10; i++ {
+		rng := mon.Rng(int64(p.idx), "c12-query-after-rename", i)
+		p.evalOne(r, p.randomQuery(rng), false)
+	}
 }
 
 // c12Eval runs every population in a child process: the cache build runs in goroutines started by
